@@ -47,6 +47,10 @@ MODES = {
 }
 
 
+class PropertyBroken(Exception):
+    """raised by a reader probe when what it saw violates C08 by itself (recorded as a failure, not as 'the reader raised')"""
+
+
 def do_reader(t, name, d, held=None):
     from basictdf.tdfBlock import BlockType
     from basictdf import Tdf
@@ -88,7 +92,8 @@ def do_reader(t, name, d, held=None):
         r = t == o
         h = getattr(o, "handler", None)
         if h is not None and not h.closed:
-            raise AssertionError("comparison left the OTHER file's handle open")
+            h.close()
+            raise PropertyBroken("a comparison left the OTHER file's handle open")
         return r
     if name == "nBytes":
         return t.nBytes
@@ -96,7 +101,20 @@ def do_reader(t, name, d, held=None):
         return len(t)
     if name == "copy":
         p = os.path.join(d, f"copy{len(os.listdir(d))}.tdf")
-        return t.copy(p)
+        c = t.copy(p)
+        # the object copy() returns is a NEW file's object: whatever mode the original is in, the copy has not been write-enabled
+        before = open(p, "rb").read()
+        exc = None
+        try:
+            with c:
+                c.remove_block(c.entries[0].type)
+        except Exception as e:
+            exc = e
+        after = open(p, "rb").read()
+        if exc is None or after != before:
+            raise PropertyBroken(f"a mutation in a PLAIN context of the object returned by copy() {'was accepted' if exc is None else 'raised but'} "
+                                 f"{'and changed' if after != before else 'and left'} the copy's bytes")
+        return c
     raise KeyError(name)
 
 
@@ -119,6 +137,7 @@ class Trace:
         self.in_write = False
         self.entered_once = False
         self.entered_explicitly = False
+        self.broken = []
 
     def disk(self):
         return open(self.path, "rb").read()
@@ -155,6 +174,8 @@ class Trace:
             name, impl, needs = op[1], op[2], op[3]
             try:
                 do_reader(self.t, name, self.wd, self.held)
+            except PropertyBroken as e:
+                self.broken.append(str(e))
             except Exception as e:
                 raised = e
             if impl and not self.in_ctx and not (needs and not self.entered_once):
@@ -177,7 +198,7 @@ class Trace:
         after = self.disk()
         closed = getattr(getattr(self.t, "handler", None), "closed", None)
         self.cmds.append(cmd)
-        self.obs.append(dict(op=op[:2] if kind != "mut" else (op[0], op[1]), raised=None if raised is None else type(raised).__name__,
+        self.obs.append(dict(op=op[:2] if kind != "mut" else (op[0], op[1]), raised=None if raised is None else type(raised).__name__, broken=list(self.broken),
                              changed=before != after, closed=closed, ref_in_ctx=self.in_ctx, ref_write=expect_write_allowed,
                              kind=kind, after=after))
 
@@ -201,6 +222,9 @@ def judge(ctx, tr, desc):
                    steps=[f"{x['kind']}:{x['op'][1] if len(x['op']) > 1 else ''}:{'raised ' + x['raised'] if x['raised'] else 'ok'}{':CHANGED' if x['changed'] else ''}" for x in tr.obs[:i + 1]])
         m_raised, m_changed, m_handle, m_inctx = m[0] == 1, m[1] == 1, m[2], m[3] == 1
         # oracle (the property itself, with the python reference monitor)
+        if o.get("broken"):
+            ctx.fail(f"{desc} step {i} {o['op']}: {o['broken'][0]}", rep, ident="reader probe: " + o["broken"][0][:60])
+            return
         if o["changed"] and not (o["kind"] == "mut" and o["ref_write"]):
             what = "a read operation" if o["kind"] == "read" else ("a mutation outside a write-enabled context" if o["kind"] == "mut" else o["kind"])
             ctx.fail(f"{desc} step {i} {o['op']}: the file's bytes changed through {what}", rep, ident=f"bytes changed by {o['kind']} outside write ctx")
